@@ -92,12 +92,15 @@ class C03(core.Check):
             reqs.append({'cmd': 'time', 'cells': [None if (c is None or c == 'garbage') else c for c in cells]})
         elif st == 'embedding':
             reqs.append({'cmd': 'emb', 'cells': [None if c is None else [core.float_bits(x) for x in c] for c in cells]})
+        elif st == 'text_embedded':     # the (stub) embedder maps every row, missing or not, to a vector of the given width
+            reqs.append({'cmd': 'emb', 'cells': [[core.float_bits(1.0)] * case['width'] for _ in cells]})
         return reqs
 
     def model_outcome(self, case, replies):
         st = case['stype']
         tables = replies[0]
         keys = sorted(dict((a, b) for a, b in tables['statsFor'])[st])
+        keys_after = sorted(dict((a, b) for a, b in tables['statsAfter'])[st])
         has_ds = case['mode'] in ('dataset', 'target')
         out = {'direct': None, 'dataset': None, 'bridge': None}
         if st in ('numerical', 'sequence_numerical'):
@@ -127,6 +130,11 @@ class C03(core.Check):
             d = {'dim': replies[1]['dim'], 'keys': keys}
             out['direct'] = d
             out['dataset'] = d if has_ds else None
+        elif st == 'text_embedded':
+            out['direct'] = {'keys': keys}
+            out['dataset'] = {'keys': keys_after, 'dim': replies[1]['dim']} if has_ds else None
+        if isinstance(out['dataset'], dict):
+            out['dataset'] = dict(out['dataset'], keys=keys_after)
         return out
 
     # ------------------------------------------------------------------ comparison
@@ -161,6 +169,8 @@ class C03(core.Check):
             ok = isinstance(r.get('direct'), dict) and bool(r['direct'].get('pairs'))
         elif st == 'timestamp':
             ok = any(isinstance(c, int) for c in case['cells'])
+        elif st == 'text_embedded':
+            ok = case['mode'] == 'dataset'
         else:
             ok = any(c is not None for c in case['cells'])
         return core.stable_hash(case) if ok else None
